@@ -634,6 +634,37 @@ func c07Run(rep *report.Report, w *c07World, h *c07Db, ops []explore.Op, body []
 	if storageAt >= 0 && opErrs[storageAt] == nil {
 		rep.Violation(fmt.Sprintf("C07|storage-error-swallowed|%s|write-%d(%s)", names[storageAt], f.writeNo, plan.Op), label+fmt.Sprintf(": storage write #%d (%s) failed during operation #%d (%s) but the store call returned nil", f.writeNo, plan.Op, storageAt+1, names[storageAt]), replay)
 	}
+	// a constraint that would veto must have been consulted: a committed change of the vetoed kind that is visible on
+	// the vetoing store - directly, or as the parent event of a change made through a child store (parent-store
+	// constraints apply to child entities) - cannot go through with the veto armed
+	if f.kind == "veto" && !w.vetoFired && reject < 0 && err == nil {
+		kindName := map[boltz.EntityEventType]string{boltz.EntityCreated: "create", boltz.EntityUpdated: "update", boltz.EntityDeleted: "delete"}[f.vetoKind]
+		for bi, o := range body {
+			if o >= len(w.k.opInfo) {
+				continue
+			}
+			info := w.k.opInfo[o]
+			k := info.kind
+			if k == "patch" {
+				k = "update"
+			}
+			if k != kindName {
+				continue
+			}
+			person := info.via == "people" || info.via == "mgr" || info.via == "prof"
+			visible := info.via == f.vetoStore && (k != "update" || info.via != "people") // an update through the parent may be handled by a child store
+			if person && f.vetoStore == "people" {
+				visible = true
+			}
+			if person && k == "update" && info.via == "people" && f.vetoStore == "people" {
+				visible = true
+			}
+			if visible {
+				rep.Violation(fmt.Sprintf("C07|veto-not-consulted|%s|%s", names[bi], f), label+": operation #"+fmt.Sprint(bi+1)+" ("+names[bi]+") was committed although a constraint on store "+f.vetoStore+" vetoes every "+kindName+" - the constraint was never asked", replay)
+				break
+			}
+		}
+	}
 	if expectFail {
 		if err == nil {
 			rep.Violation(sig("transaction-reports-success"), label+": a step failed but the transaction returned nil", replay)
